@@ -121,14 +121,19 @@ structure Cfg where
   flushOnAppend : Bool
   /-- `wal.Manager.Sync` flushes the bufio writer before it fsyncs the file. -/
   syncFlushes : Bool
+  /-- `peer.processReady` hands a Ready's messages to the transport only after `handleReady`
+  (hard state → snapshot → entries persisted) returned nil; on an error nothing is sent. -/
+  sendAfterPersist : Bool
   deriving DecidableEq, Repr
 
-def Cfg.good : Cfg := { flushOnAppend := true, syncFlushes := true }
-def Cfg.Good (c : Cfg) : Prop := c.flushOnAppend = true ∧ c.syncFlushes = true
+def Cfg.good : Cfg := { flushOnAppend := true, syncFlushes := true, sendAfterPersist := true }
+def Cfg.Good (c : Cfg) : Prop := c.flushOnAppend = true ∧ c.syncFlushes = true ∧ c.sendAfterPersist = true
 instance Cfg.decGood (c : Cfg) : Decidable c.Good := by unfold Cfg.Good; exact inferInstance
 /-- the shipped code: records stay in the bufio buffer when the call returns -/
 def Cfg.AsIsBuffered (c : Cfg) : Prop := c.flushOnAppend = false ∧ c.syncFlushes = true
 instance Cfg.decAsIsBuffered (c : Cfg) : Decidable c.AsIsBuffered := by unfold Cfg.AsIsBuffered; exact inferInstance
+def Cfg.SendsEarly (c : Cfg) : Prop := c.sendAfterPersist = false
+instance Cfg.decSendsEarly (c : Cfg) : Decidable c.SendsEarly := by unfold Cfg.SendsEarly; exact inferInstance
 def Cfg.Any (_ : Cfg) : Prop := True
 instance Cfg.decAny (c : Cfg) : Decidable c.Any := by unfold Cfg.Any; exact inferInstance
 
@@ -292,7 +297,11 @@ def step (c : Cfg) (s : St) : Ev → St
   | .rotate => rotate s
   | .send => match s.phase with
     | .idle => { s with sent := (raftOf s.written).length }
-    | _ => s
+    | .appended _ _ _ =>
+      -- a peer that sends although the storage call has not returned counts the record as acted on
+      if c.sendAfterPersist then s else { s with sent := (raftOf s.written).length }
+    | .synced _ _ _ =>
+      if c.sendAfterPersist then s else { s with sent := (raftOf s.written).length }
   | .crash => crash s
 
 def run (c : Cfg) (evs : List Ev) : St := evs.foldl (step c) {}
